@@ -18,7 +18,7 @@ NAMES = ['e1', 'e2']
 TARGETS = ['a', 'b', 'c', '*', 'inst']
 DYN_NAMES = [(), ('e1',), ('e2',), ('e1', 'e2')]
 DYN_CHANS = [None, 'a', 'b', '*', 'self']
-SHAPES = ['plain', 'catch', 'star', 'impl', 'subno', 'subov', 'bare']
+SHAPES = ['plain', 'catch', 'star', 'impl', 'subno', 'subov', 'bare', 'leaf3', 'implopt']
 
 
 class e1(Event):
@@ -126,7 +126,30 @@ def _mk_classes(w):
         pass
     Bare.decl = {}
 
-    return {'plain': Plain, 'catch': Catch, 'star': Star, 'impl': Impl, 'subno': SubNo, 'subov': SubOv, 'bare': Bare}, rec
+    # three levels: the middle class REPLACES the grand-base handler (override=True), the leaf re-declares the method
+    # without override, so the middle one stays an additional handler; the replaced grand-base handler must not run
+    class Grand(Obs):
+        h = H('e1')(rec('grand.h'))
+
+    class Mid(Grand):
+        h = H('e1', override=True)(rec('mid.h'))
+
+    class Leaf3(Mid):
+        h = H('e1')(rec('leaf3.h'))
+    Leaf3.decl = {'mid.h': (('e1',), None), 'leaf3.h': (('e1',), None)}
+
+    # Component subclass: public methods are implicit handlers unless opted out with @handler(False)
+    class ImplOpt(ObsC):
+        def e1(self, *args):
+            w.log.append((args[0], self.idx, 'implopt.e1'))
+
+        @H(False)
+        def e2(self, *args):
+            w.log.append((args[0] if args else None, self.idx, 'implopt.e2'))
+    ImplOpt.decl = {'implopt.e1': (('e1',), None)}
+
+    return {'plain': Plain, 'catch': Catch, 'star': Star, 'impl': Impl, 'subno': SubNo, 'subov': SubOv, 'bare': Bare,
+            'leaf3': Leaf3, 'implopt': ImplOpt}, rec
 
 
 def _members(root, pending=False, out=None):
@@ -415,7 +438,7 @@ class C01(Prop):
         if len(w.dispatched) != len(set(w.dispatched)):
             return bad('probe-dispatched-twice', 'a probe was dispatched twice')
         shapes = {s for s, _ in spec['pool']}
-        if shapes & {'subno', 'subov'}:
+        if shapes & {'subno', 'subov', 'leaf3'}:
             w.classes.add('inherited-handlers')
         return Result(True, nontrivial=w.nontrivial, classes=sorted(w.classes))
 
